@@ -533,10 +533,15 @@ def _parse_transf_v33(raw, system, max_bus):
             if data[0][6] == 2:
                 logger.warning('Admittance code 2 not implemented')
 
+            # `g1` and `b1` of a line are behind the tap and in the base of the device
+            ymag_scale = tap ** 2 * (system.config.mva / Sn) * (Vn1 / bus_Vn1) ** 2
+
             param = {'bus1': data[0][0],
                      'bus2': data[0][1],
                      'u': data[0][11],
-                     'b': data[0][8],
+                     # magnetizing admittance `MAG1 + j MAG2` in pu on the system base, connected to ground at bus I
+                     'g1': data[0][7] * ymag_scale,
+                     'b1': data[0][8] * ymag_scale,
                      'r': data[1][0] * tap2 ** 2,
                      'x': data[1][1] * tap2 ** 2,
                      'trans': transf,
